@@ -88,3 +88,88 @@ Section C19.
                                          :: lists_scope fo)) enumerate_call = Err.
   Proof. exact (std_enumerate_overflow_err fo). Qed.
 End C19.
+
+(* ---- the helpers that go through `import "std/..."` and `mod.pkg()`: stated on [eval_imp] (std/Sem_Import.v), the definitional
+   evaluator extended with an import table (the five library files of gen/StdLib.v, linked) - a copy of sem/Sem.v's fixpoints
+   in which only the import case differs, conservative over it. ---- *)
+From Ucg Require Import std.Sem_Import std.Sem_Import_Lemmas std.StdSpec_Imp std.Imp_Lists std.Imp_Slice std.Imp_Tuples
+     std.Imp_Functional std.Imp_Strings.
+
+Section C19_imports.
+  Variable fo : float_ops.
+
+  (* the extended evaluator agrees with the definitional semantics wherever that gives a verdict *)
+  Theorem import_evaluator_is_conservative : forall imports f stk c e r,
+      eval fo f c e = r -> r <> Unsup -> eval_imp fo imports f stk c e = r.
+  Proof. exact (eval_imp_conservative fo). Qed.
+
+  (* zip: the pairs [x_i, y_i] in order, truncated to the shorter list *)
+  Theorem zip_is_pairs : forall E st ord l1 l2,
+      fits (Z.of_nat (List.length l1)) -> fits (Z.of_nat (List.length l2)) ->
+      (Z.of_nat (Nat.min (List.length l1) (List.length l2)) <= range_limit)%Z ->
+      exists f, eval_imp fo std_imports f [] (ctx_gen fo E st ord [(b "arg2", VList fo l2); (b "arg1", VList fo l1)]) zip_call
+                = Ok (ref_zip fo l1 l2).
+  Proof. exact (std_zip fo). Qed.
+
+  (* slice: inclusive on both ends; the three guards *)
+  Theorem slice_is_inclusive_sublist : forall E st ord s e l,
+      fits (Z.of_nat (List.length l)) -> (0 <= s <= Z.of_nat (List.length l))%Z -> (e < Z.of_nat (List.length l))%Z ->
+      (e - s + 1 <= range_limit)%Z ->
+      exists f, eval_imp fo std_imports f [] (ctx_gen fo E st ord [(b "arg3", VList fo l); (b "arg2", VInt fo e); (b "arg1", VInt fo s)]) slice_call
+                = Ok (ref_slice fo s e l).
+  Proof. exact (std_slice fo). Qed.
+
+  Theorem slice_default_end_is_last_index : forall E st ord s l,
+      fits (Z.of_nat (List.length l)) -> (0 <= s <= Z.of_nat (List.length l))%Z -> (Z.of_nat (List.length l) - s <= range_limit)%Z ->
+      exists f, eval_imp fo std_imports f [] (ctx_gen fo E st ord [(b "arg3", VList fo l); (b "arg1", VInt fo s)]) slice_call_default
+                = Ok (ref_slice fo s (Z.of_nat (List.length l) - 1) l).
+  Proof. exact (std_slice_default fo). Qed.
+
+  Theorem has_fields_is_membership : forall E st ord fs fields,
+      Forall (fun v => is_closure fo v = false) fields ->
+      exists f, eval_imp fo std_imports f [] (ctx_gen fo E st ord [(b "arg2", VList fo fields); (b "arg1", VTuple fo fs)]) has_fields_call
+                = Ok (ref_has_fields fo fs fields).
+  Proof. exact (std_has_fields fo). Qed.
+
+  Theorem field_type_is_type_of_field : forall E st ord fs field typ,
+      NoDup (map fst fs) ->
+      exists f, eval_imp fo std_imports f [] (ctx_gen fo E st ord [(b "arg3", VStr fo typ); (b "arg2", VStr fo field); (b "arg1", VTuple fo fs)])
+                         field_type_call = Ok (VBool fo (ref_field_type fo fs field typ)).
+  Proof. exact (std_field_type_nodup fo). Qed.
+
+  (* functional.maybe: unwrap gives the value back; do skips NULL *)
+  Theorem maybe_unwrap_is_value : forall E st ord v,
+      exists f, eval_imp fo std_imports f [] (ctx_gen fo E st ord [(b "arg", v)]) (meth maybe_of_arg "unwrap" []) = Ok v.
+  Proof. exact (std_maybe_unwrap fo). Qed.
+
+  Theorem maybe_do_skips_null : forall E st ord opv,
+      exists f, eval_imp fo std_imports f [] (ctx_gen fo E st ord [(b "op", opv); (b "arg", VNull fo)])
+                         (meth (meth maybe_of_arg "do" [ESym (b "op")]) "unwrap" []) = Ok (VNull fo).
+  Proof. exact (std_maybe_do_null fo). Qed.
+
+  (* strings count UTF-8 characters, not bytes *)
+  Theorem strings_len_counts_characters : forall E st ord s, fits (N s) ->
+      exists f, eval_imp fo std_imports f [] (ctx_gen fo E st ord [(b "arg", VStr fo s)]) (EBin DOT wrap_arg (ESym (b "len")))
+                = Ok (VInt fo (Z.of_nat (List.length (utf8_chars s)))).
+  Proof. exact (std_strings_len fo). Qed.
+
+  Theorem strings_chars_are_characters : forall E st ord s, fits (N s) ->
+      exists f, eval_imp fo std_imports f [] (ctx_gen fo E st ord [(b "arg", VStr fo s)]) (EBin DOT wrap_arg (ESym (b "chars")))
+                = Ok (VList fo (map (VStr fo) (utf8_chars s))).
+  Proof. exact (std_strings_chars fo). Qed.
+
+  Theorem split_at_splits_at_character : forall E st ord s idx, fits (N s) ->
+      exists f, eval_imp fo std_imports f [] (ctx_gen fo E st ord [(b "arg2", VInt fo idx); (b "arg", VStr fo s)])
+                         (EBin DOT wrap_arg (ECall (ESym (b "split_at")) [ESym (b "arg2")]))
+                = Ok (VTuple fo [(b "left", VStr fo (concat (firstn (Z.to_nat idx) (utf8_chars s))));
+                                 (b "right", VStr fo (concat (skipn (Z.to_nat idx) (utf8_chars s))))]).
+  Proof. exact (std_strings_split_at fo). Qed.
+
+  (* finding (documented, both builds fail or misbehave): the third guard of slice lets end = len through *)
+  Theorem slice_end_equal_length_refuted : forall E ord,
+      let l := [VInt fo 0; VInt fo 1; VInt fo 2; VInt fo 3] in
+      eval_imp fo std_imports 60 [] (ctx_gen fo E true ord [(b "arg3", VList fo l); (b "arg2", VInt fo 4); (b "arg1", VInt fo 0)]) slice_call = Err /\
+      eval_imp fo std_imports 60 [] (ctx_gen fo E false ord [(b "arg3", VList fo l); (b "arg2", VInt fo 4); (b "arg1", VInt fo 0)]) slice_call
+      = Ok (VList fo [VInt fo 0; VInt fo 1; VInt fo 2; VInt fo 3; VNull fo]).
+  Proof. exact (std_slice_end_is_len_refuted fo). Qed.
+End C19_imports.
